@@ -60,6 +60,10 @@ def gen_wf(rng):
             h += c + l + eol()
     blank = eol()
     body = rng.choice(BODIES) if rng.random() < 0.6 else bytes(rng.randrange(256) for _ in range(rng.randint(0, 60)))
+    if rng.random() < 0.06:
+        # a header block and nothing else: no blank line, no body (the `none` branch of the model's boundary search; the model mutant
+        # `envelope-crlf-boundary-first` survived the campaign until these were generated)
+        blank, body = b'', b''
     spec_fields = [[name.hex(), [lines[0].hex()] + [(c + l).hex() for c, l in zip(conts, lines[1:])]] for name, lines, conts in fields]
     return {'kind': 'wf', 'h': h.hex(), 'blank': blank.hex(), 'body': body.hex(), 'fields': spec_fields}
 
